@@ -379,9 +379,40 @@ func condIsErrNotNil(c ast.Expr, v string) bool {
 		case token.LOR:
 			return condIsErrNotNil(x.X, v) && condIsErrNotNil(x.Y, v) ||
 				(condIsErrNotNil(x.X, v) && !mentions(x.Y, v)) || (condIsErrNotNil(x.Y, v) && !mentions(x.X, v))
+		case token.LAND:
+			// `v != nil && v != pkg.ErrSentinel`: an error branch that
+			// exempts one named sentinel value (reported in the detail)
+			if condIsErrNotNil(x.X, v) && isSentinelExemption(x.Y, v) {
+				return true
+			}
 		}
 	}
 	return false
+}
+
+func isSentinelExemption(c ast.Expr, v string) bool {
+	b, ok := ast.Unparen(c).(*ast.BinaryExpr)
+	if !ok || b.Op != token.NEQ {
+		return false
+	}
+	id, ok := ast.Unparen(b.X).(*ast.Ident)
+	if !ok || id.Name != v {
+		return false
+	}
+	switch ast.Unparen(b.Y).(type) {
+	case *ast.SelectorExpr, *ast.Ident:
+		return !isNilIdent(b.Y)
+	}
+	return false
+}
+
+func sentinelOf(c ast.Expr) string {
+	if b, ok := ast.Unparen(c).(*ast.BinaryExpr); ok && b.Op == token.LAND {
+		if y, ok := ast.Unparen(b.Y).(*ast.BinaryExpr); ok {
+			return "error branch exempts " + exprString(y.Y)
+		}
+	}
+	return ""
 }
 
 // verdict on how an error branch (taken when v != nil) ends.
@@ -518,6 +549,11 @@ func findPath(list []ast.Stmt, pos token.Pos) []pathEl {
 func (a *analysis) scanForward(u *unit, path []pathEl, v string) (string, string) {
 	for depth := len(path) - 1; depth >= 0; depth-- {
 		el := path[depth]
+		switch el.stmt.(type) {
+		case *ast.CaseClause, *ast.CommClause:
+			// the sibling clauses are alternatives, not successors
+			continue
+		}
 		for i := el.idx + 1; i < len(el.list); i++ {
 			s := el.list[i]
 			if !mentions(s, v) {
@@ -534,7 +570,7 @@ func (a *analysis) scanForward(u *unit, path []pathEl, v string) (string, string
 				if condIsErrNotNil(x.Cond, v) {
 					verdict, why := a.errBranch(u, x.Body, v)
 					if verdict == "ok" {
-						return "assigned_then_checked", ""
+						return "assigned_then_checked", sentinelOf(x.Cond)
 					}
 					return verdict, why
 				}
@@ -716,7 +752,7 @@ func (a *analysis) afterAssign(u *unit, s ast.Stmt, v string, call *ast.CallExpr
 			if condIsErrNotNil(is.Cond, v) {
 				verdict, why := a.errBranch(u, is.Body, v)
 				if verdict == "ok" {
-					return "checked_and_returned", ""
+					return "checked_and_returned", sentinelOf(is.Cond)
 				}
 				return verdict, why
 			}
